@@ -5,7 +5,7 @@
    code stores.                                                                          *)
 From Coq Require Import List Bool Arith ZArith QArith Qcanon.
 From NI Require Import Num Base Lookup Linear Interp Spline Tri TriProofs SplineAlgebra
-  LookupProofs LinearProofs SplineProofs.
+  LookupProofs LinearProofs SplineProofs SplineStruct SplineIndividual PeriodicSolve PeriodicLane.
 Import ListNotations.
 Local Open Scope nat_scope.
 
@@ -92,12 +92,75 @@ Theorem C02_thomas_lane :
 Proof. exact @thomas_lane. Qed.
 Print Assumptions C02_thomas_lane.
 
-(* Full statement for per-lane (Individual) and Periodic boundaries: same conclusion as
-   C02_spline_whole_correct with the lane's own (left, right) pair resp. the cyclic system.
-   Proved so far: the solver, the pivots and the C2/boundary algebra they share (above and in
-   C03); the dispatch lemma for Individual and the non-vanishing of the condensed cyclic
-   system's denominator are carried by the correspondence (every boundary kind is compared
-   exactly with the implementation, coefficients included).                               *)
+(* per-lane (Individual) boundaries: the same statement with the lane's own (left, right) pair *)
+Theorem C02_spline_individual_correct :
+  forall (xs : list Qc) (data : list (list Qc)) (L : nat),
+    (forall i, i < length data -> length (nth i data []) = L) ->
+    StrictIncQc xs -> length xs = length data -> 3 <= length data ->
+    (Z.of_nat (length data) <= two64)%Z -> 0 < L ->
+    forall (per_lane : list (rowbc Qc)) (shape : list nat) (ext : bool) (trail : list nat)
+           (sp : spline_strat) (j : nat) (rb : rowbc Qc),
+      j < L -> nth_error per_lane j = Some rb ->
+      spline_build NumQc (BIndividual per_lane shape) ext xs data trail = Ok sp ->
+      let l := fst (lane_lr rb) in let r := snd (lane_lr rb) in
+      exists kq : list Qc,
+        (forall k, sat 0%Qc (sys_rows xs data j l r) k <-> k = kq) /\
+        forall x, (ext = false -> in_closed_range NumQc 0%Qc xs x = true) ->
+          exists i v, lower_index NumQc xs x = Ok i /\ i + 1 < length data /\
+            spline_interp NumQc sp xs data x = Ok v /\ length v = L /\
+            nth j v 0%Qc =
+              piece (yq data j i) (kk kq i) (aq xs data j kq i) (bq xs data j kq i) (hq xs i)
+                    (x - nth i xs 0)%Qc.
+Proof. exact spline_individual_correct. Qed.
+Print Assumptions C02_spline_individual_correct.
+
+(* Periodic (n >= 4): the condensed cyclic solve of cubic_spline.rs:498-565 -- two Thomas sweeps with
+   the same matrix and the elimination of k_(n-2) -- yields slopes for which the pieces are C2 at
+   EVERY interior knot, S' and S'' agree at the two ends, every query in the range is the cubic
+   piece of one bracketing interval, and with extrapolation a query outside the range is
+   answered like the wrapped query.  (Pivots of both sweeps and the denominator of the
+   elimination are shown to be positive: strict diagonal dominance.)                      *)
+Theorem C02_spline_periodic_correct :
+  forall (xs : list Qc) (data : list (list Qc)) (L : nat),
+    (forall i, i < length data -> length (nth i data []) = L) ->
+    StrictIncQc xs -> length xs = length data -> 4 <= length data ->
+    (Z.of_nat (length data) <= two64)%Z ->
+    forall (ext : bool) (trail : list nat) (sp : spline_strat) (j : nat),
+      j < L ->
+      spline_build NumQc BPeriodic ext xs data trail = Ok sp ->
+      exists kq : list Qc,
+        (forall i, 1 <= i -> i + 2 <= length data ->
+           piece_d2 (aq xs data j kq (i - 1)) (bq xs data j kq (i - 1)) (hq xs (i - 1)) (hq xs (i - 1))
+           = piece_d2 (aq xs data j kq i) (bq xs data j kq i) (hq xs i) 0%Qc) /\
+        piece_d1 (kk kq (length data - 2)) (aq xs data j kq (length data - 2)) (bq xs data j kq (length data - 2))
+                 (hq xs (length data - 2)) (hq xs (length data - 2))
+          = piece_d1 (kk kq 0) (aq xs data j kq 0) (bq xs data j kq 0) (hq xs 0) 0%Qc /\
+        piece_d2 (aq xs data j kq (length data - 2)) (bq xs data j kq (length data - 2))
+                 (hq xs (length data - 2)) (hq xs (length data - 2))
+          = piece_d2 (aq xs data j kq 0) (bq xs data j kq 0) (hq xs 0) 0%Qc /\
+        yq data j (length data - 1) = yq data j 0 /\
+        (forall x, in_closed_range NumQc 0%Qc xs x = true ->
+          exists i v, lower_index NumQc xs x = Ok i /\ i + 1 < length data /\
+            spline_interp NumQc sp xs data x = Ok v /\ length v = L /\
+            nth j v 0%Qc =
+              piece (yq data j i) (kk kq i) (aq xs data j kq i) (bq xs data j kq i) (hq xs i)
+                    (x - nth i xs 0)%Qc) /\
+        (ext = true -> forall x, in_closed_range NumQc 0%Qc xs x = false ->
+            in_closed_range NumQc 0%Qc xs (wrap NumQc 0%Qc xs x) = true /\
+            spline_interp NumQc sp xs data x = spline_interp NumQc sp xs data (wrap NumQc 0%Qc xs x)).
+Proof. exact spline_periodic_correct. Qed.
+Print Assumptions C02_spline_periodic_correct.
+
+(* Periodic with exactly three knots (cubic_spline.rs:480-496): one common slope; C2 at the middle knot *)
+Theorem C02_periodic3_C2 :
+  forall (xs : list Qc) (data : list (list Qc)) (L j : nat), j < L ->
+    (forall i, i < length data -> length (nth i data []) = L) ->
+    StrictIncQc xs -> length xs = length data -> length data = 3 ->
+    let K3 := lane_vec 0%Qc j (periodic3_k NumQc xs data) in
+    piece_d2 (aq xs data j K3 0) (bq xs data j K3 0) (hq xs 0) (hq xs 0)
+    = piece_d2 (aq xs data j K3 1) (bq xs data j K3 1) (hq xs 1) 0%Qc.
+Proof. exact periodic3_C2. Qed.
+Print Assumptions C02_periodic3_C2.
 
 Example C02_ex :
   match spline_build NumQc BNatural false [qc 0 1; qc 1 1; qc 3 1] [[qc 0 1]; [qc 1 1]; [qc 0 1]] [] with
